@@ -163,10 +163,10 @@ func (q *seqRun) execute(o *Op, stepNo int) (j judged) {
 		}
 	case "remove", "removeKeyed":
 		_ = q.e.applyDirect(q.c, o)
-		j.candidates = q.s.removeCandidates(o.Type, o.Key)
+		j.candidates = q.s.afterRemove(o)
 		j.preRemove = q.s
 		j.class = "noop-remove"
-		if _, had := q.s.svc[ident{T: o.Type, Key: o.Key}]; had {
+		if q.s.had(o) {
 			j.class = map[string]string{"remove": "Remove", "removeKeyed": "RemoveKeyed"}[o.Kind]
 		}
 	case "modules":
@@ -200,9 +200,9 @@ func (q *seqRun) execute(o *Op, stepNo int) (j judged) {
 		}
 		j.candidates = []*Ref{cur}
 		if rm != nil {
-			j.candidates = cur.removeCandidates(rm.Type, rm.Key)
+			j.candidates = cur.afterRemove(rm)
 			j.preRemove = cur
-			if _, had := cur.svc[ident{T: rm.Type, Key: rm.Key}]; had {
+			if cur.had(rm) {
 				j.class = map[string]string{"remove": "Remove", "removeKeyed": "RemoveKeyed"}[rm.Kind]
 			}
 		}
